@@ -3,7 +3,7 @@ import core
 LEVEL = 'exploration'
 RULE = ('exactness: every instruction of every pclntab function of the listed Go binaries is decoded by goom\'s x86 decoder and by '
         'upstream golang.org/x/arch/x86asm in lock-step and compared (Len, mnemonic, PCRel, PCRelOff); totality: random byte strings of '
-        'length 1-16 and bit-mutated real instruction starts are decoded under recover and checked structurally; the entry point goom itself uses, bytecode.ParseIns, on the first n bytes of real functions given as slices with capacity far beyond their length (never beyond the supplied bytes, same answer as for a private copy); the extent scan bytecode.GetFuncSize over 4000 functions of the running binary against the same scan made with the reference decoder; '
+        'length 1-16 and bit-mutated real instruction starts are decoded under recover and checked structurally; the entry point goom itself uses, bytecode.ParseIns, on the first n bytes of real functions given as slices with capacity far beyond their length (never beyond the supplied bytes, same answer as for a private copy); every opcode of the one-byte, 0F, 0F38 and 0F3A maps under 12 prefix combinations and the VEX forms x 80 ModRM forms (1.8 million byte strings the assembler can emit, whether or not a compiler-built binary contains them) against the reference; the extent scan bytecode.GetFuncSize over 4000 functions of the running binary against the same scan made with the reference decoder; '
         'distinct = distinct mnemonics on which both decoders agreed')
 
 
@@ -14,6 +14,7 @@ def run(ctx):
     files.update(core.dir_files('harness/c16', 'zzverif/c16'))
     b = ctx.build('c16', core.MODPATH + '/zzverif/c16', files, gcflags='')
     ctx.children(b, 1, run='TestC16$', timeout=3000 if ctx.thorough else 600)
+    ctx.children(b, 1, run='TestC16OpcodeMap', timeout=900, what='TestC16OpcodeMap')
     ctx.children(b, 1, run='TestC16FuncSize', timeout=600, env={'VERIF_C16_SIZEFUNCS': '4000' if not ctx.thorough else '200000'}, what='TestC16FuncSize')
     ctx.children(b, 1, run='TestC16ParseIns', timeout=600, env={'VERIF_C16_PARSEFUNCS': '3000' if not ctx.thorough else '60000'}, what='TestC16ParseIns')
     ctx.assumptions += ['reference = golang.org/x/arch/x86/x86asm as vendored in GOROOT/src/cmd (go1.23.5)',
